@@ -412,6 +412,20 @@ class QueryScheduler:
             del self._next_scheduled_for_alias[pointer.alias]
         expire_time_millis = pointer.get_expiration_time(100)
         self._schedule_ptr_refresh(pointer, expire_time_millis, refresh_time_millis)
+        self._wake_up_no_later_than(refresh_time_millis)
+
+    def _wake_up_no_later_than(self, when_millis: float_) -> None:
+        """Re-arm the timer if it is set to fire after a newly scheduled query is due."""
+        if self._loop is None or self._next_run is None or self._startup_queries_sent < STARTUP_QUERIES:
+            # Still sending the startup queries; _process_ready_types will
+            # pick up everything in the heap once they are done.
+            return
+        # Keep the minimum time between queries
+        earliest_millis = current_time_millis() + self._min_time_between_queries_millis
+        wake_up = millis_to_seconds(when_millis if when_millis > earliest_millis else earliest_millis)
+        if wake_up < self._next_run.when():
+            self._next_run.cancel()
+            self._next_run = self._loop.call_at(wake_up, self._process_ready_types)
 
     def schedule_rescue_query(
         self, query: _ScheduledPTRQuery, now_millis: float_, additional_percentage: float_
@@ -496,6 +510,10 @@ class QueryScheduler:
 
         for query in schedule_rescue:
             self.schedule_rescue_query(query, now_millis, RESCUE_RECORD_RETRY_TTL_PERCENTAGE)
+
+        if schedule_rescue and self._query_heap:
+            # A rescue query may be due before the entry found above
+            next_scheduled = self._query_heap[0]
 
         if ready_types:
             self.async_send_ready_queries(False, now_millis, ready_types)
